@@ -32,9 +32,25 @@ AST based.  Of the three convenience constructors `MolGrid.from_preset`, `from_s
   properties `Grid.points` / `Grid.weights` are checked (in basegrid.py) to be `return self._points`
   / `return self._weights`.
 
+* round 3: the *defaults* of the three classmethod signatures (`fromX_defaults` as text, integer / boolean
+  defaults also as typed definitions `fromX_default_<param>`); `MolGrid.interpolate` and its inner
+  `interpolate_low` statement by statement (`Gen.MolGrid.interpolate`, `interpolate_low`: the `atgrids is None`
+  guard, `func_vals * self.aim_weights` -> `npMul1`, the `range(len(self.atcoords))` loop with its two index
+  look-ups, `self[i]` -> the generated `getItem`, `.interpolate(slice)` -> `subInterpolate`, `.append`; the inner
+  function as a definition of its own taking the captured list first, its defaults as Lean default arguments,
+  `fs[0](...)`, `for f in fs[1:]: output += f(...)` -> `pyForEach` / `npIAdd`); the properties of `MolGrid`
+  (`atgrids`, `indices`, `aim_weights`, `atcoords`, `atweights`) are checked to be `return self._<name>`;
+  `_generate_default_rgrid` statement by statement (`Gen.MolGrid.generate_default_rgrid`: `in` / `[int(atnum)]` on
+  the table, the two unit conversions with `scipy.constants.angstrom` and `scipy.constants.value('atomic unit of
+  length')` as the parameters `angstrom`, `bohr`, `UniformInteger(npt)`, `PowerRTransform(rmin,
+  rmax).transform_1d_grid(onedgrid)` as given components); every row of `_DEFAULT_POWER_RTRANSFORM_PARAMS`
+  (utils.py) with `rmin`, `rmax` as the *exact decimals of the literal text* (`Dec`: mantissa, scale) ->
+  `defaultRgridParams`.
+
 Anything else raises `Untranslatable` (treated by the check like a proof obligation that no
 longer holds).
 """
+import decimal
 import ast
 
 from ..common import SRC
@@ -205,6 +221,31 @@ def _unparse_short(s):
     return ast.unparse(s)
 
 
+def _defaults(f, fname, lean_prefix):
+    """The defaults of a signature: as text, and typed for integer / boolean literals."""
+    a = f.args
+    if a.vararg or a.kwarg or a.posonlyargs:
+        _fail(f, "unsupported signature")
+    pos = a.args[len(a.args) - len(a.defaults):]
+    pairs = list(zip(pos, a.defaults)) + [(p, d) for p, d in zip(a.kwonlyargs, a.kw_defaults) if d is not None]
+    if len([d for d in a.kw_defaults if d is None]):
+        _fail(f, "keyword-only parameter without default")
+    out = _pairs(f"{lean_prefix}_defaults", f"`MolGrid.{fname}`: the defaults of the signature, `(parameter, default text)`.",
+                 [(p.arg, ast.unparse(d)) for p, d in pairs])
+    for p, d in pairs:
+        if isinstance(d, ast.Constant) and type(d.value) is bool:
+            out += [f"/-- `MolGrid.{fname}`: default of `{p.arg}`. -/",
+                    f"def {lean_prefix}_default_{_lname(p.arg)} : Bool := {'true' if d.value else 'false'}", ""]
+        elif isinstance(d, ast.Constant) and type(d.value) is int and d.value >= 0:
+            out += [f"/-- `MolGrid.{fname}`: default of `{p.arg}`. -/",
+                    f"def {lean_prefix}_default_{_lname(p.arg)} : Nat := {d.value}", ""]
+        elif isinstance(d, ast.Constant) and d.value is None:
+            pass
+        else:
+            _fail(d, f"unsupported default of {p.arg}")
+    return out
+
+
 def _one_method(tree, fname, lean_prefix):
     """-> (lean lines) for one constructor."""
     f = _classmethod(tree, fname)
@@ -218,6 +259,7 @@ def _one_method(tree, fname, lean_prefix):
     out = []
     sig = [a.arg for a in f.args.args] + ["*"] * bool(f.args.kwonlyargs) + [a.arg for a in f.args.kwonlyargs]
     out += _strs(f"{lean_prefix}_signature", f"`MolGrid.{fname}`: parameter names in order (`*` = keyword-only from here).", sig)
+    out += _defaults(f, fname, lean_prefix)
     out += _strs(f"{lean_prefix}_prelude", f"`MolGrid.{fname}`: the statements before the per-atom loop (exception messages dropped).",
                  [_unparse_short(s) for s in pre])
     out += _strs(f"{lean_prefix}_loop", f"`MolGrid.{fname}`: the loop header `for <target> in <iter>`.",
@@ -867,11 +909,363 @@ def _translate_accessor(tree, pyname, leanname):
             f"def {leanname} {{P K : Type}} (self : MolGrid P K) (index : Int) : Py (SubGrid P K) := do"] + lines + [""]
 
 
+
+# ==========================================================================================
+# round 3: MolGrid.interpolate / interpolate_low, _generate_default_rgrid, the parameter table
+# ==========================================================================================
+MOL_PROPERTIES = {"atgrids": "_atgrids", "indices": "_indices", "aim_weights": "_aim_weights", "atcoords": "_atcoords",
+                  "atweights": "_atweights"}
+
+
+def _check_mol_properties(tree):
+    """`self.atgrids`, `self.indices`, ... are read as the attributes they return: check the properties of MolGrid."""
+    seen = {}
+    for c in tree.body:
+        if isinstance(c, ast.ClassDef) and c.name == "MolGrid":
+            for f in c.body:
+                if isinstance(f, ast.FunctionDef) and any(isinstance(d, ast.Name) and d.id == "property" for d in f.decorator_list):
+                    seen[f.name] = [ast.unparse(x) for x in _strip_doc(f.body)]
+                elif isinstance(f, ast.FunctionDef) and any(isinstance(d, ast.Attribute) and d.attr in ("setter", "deleter") for d in f.decorator_list):
+                    raise Untranslatable(f"MolGrid.{f.name} has a setter / deleter")
+    for name, attr in MOL_PROPERTIES.items():
+        if seen.get(name) != [f"return self.{attr}"]:
+            raise Untranslatable(f"MolGrid.{name} is not `return self.{attr}`: {seen.get(name)}")
+    extra = sorted(set(seen) - set(MOL_PROPERTIES))
+    if extra:
+        raise Untranslatable(f"unexpected properties of MolGrid: {extra}")
+
+
+class IBody(Body):
+    """`Body` + the vocabulary of `interpolate`: the properties of MolGrid, `self[i]`, `a * b` on 1-D arrays,
+    `g.interpolate(vals)`."""
+
+    def selfattr(self, node, attr):
+        return super().selfattr(node, MOL_PROPERTIES.get(attr, attr))
+
+    def expr(self, e):
+        if isinstance(e, ast.Subscript) and isinstance(e.value, ast.Name) and e.value.id == "self" and not isinstance(e.slice, ast.Slice):
+            return f"(← getItem self {self.index(e.slice)})", "subgrid"
+        if isinstance(e, ast.BinOp) and isinstance(e.op, ast.Mult):
+            (a, ka), (b, kb) = self.expr(e.left), self.expr(e.right)
+            if (ka, kb) != ("listK", "listK"):
+                _fail(e, f"`*` on kinds {ka}, {kb}")
+            return f"(← npMul1 {a} {b})", "listK"
+        if (isinstance(e, ast.Call) and isinstance(e.func, ast.Attribute) and e.func.attr == "interpolate" and len(e.args) == 1
+                and not e.keywords and not isinstance(e.args[0], ast.Starred)):
+            g, kg = self.expr(e.func.value)
+            v, kv = self.expr(e.args[0])
+            if (kg, kv) != ("subgrid", "listK"):
+                _fail(e, f"`.interpolate` on kinds {kg}, {kv}")
+            return f"(← subInterpolate atom_interpolate {g} {v})", "interp"
+        return super().expr(e)
+
+
+def _translate_interpolate(tree):
+    f = _method(tree, "interpolate")
+    if [a.arg for a in f.args.args] != ["self", "func_vals"] or f.args.kwonlyargs or f.args.vararg or f.args.kwarg or f.args.defaults \
+            or f.decorator_list:
+        _fail(f, "unexpected signature of MolGrid.interpolate")
+    B = IBody("interpolate", constructed=True)
+    B.vars = {"func_vals": ("func_vals", "listK")}
+    body = _strip_doc(f.body)
+    if len(body) < 2:
+        _fail(f, "unexpected body of MolGrid.interpolate")
+    # ---- 1. if self.atgrids is None: raise X
+    g = body[0]
+    if not (isinstance(g, ast.If) and not g.orelse and len(g.body) == 1 and isinstance(g.body[0], ast.Raise)
+            and isinstance(g.test, ast.Compare) and len(g.test.ops) == 1 and isinstance(g.test.ops[0], ast.Is)
+            and ast.unparse(g.test.left) in ("self.atgrids", "self._atgrids")
+            and isinstance(g.test.comparators[0], ast.Constant) and g.test.comparators[0].value is None):
+        _fail(g, "expected `if self.atgrids is None: raise ...` first")
+    out = [f"-- if {ast.unparse(g.test)}: raise {ast.unparse(g.body[0].exc.func) if isinstance(g.body[0].exc, ast.Call) else '?'}",
+           "match self.atgrids with", f"| none => {B.raises(g.body[0])}", "| some _atgrids => do"]
+    B.stored = "_atgrids"
+    lines = []
+    inner = None          # the nested function
+    captured = None
+    k = 1
+    while k < len(body):
+        s = body[k]
+        k += 1
+        if isinstance(s, ast.Assign) and len(s.targets) == 1 and isinstance(s.targets[0], ast.Name):
+            n = s.targets[0].id
+            if n in B.vars or n == "self" or inner is not None:
+                _fail(s, "re-assignment")
+            lines.append(_comment(s))
+            if isinstance(s.value, ast.List) and not s.value.elts:
+                lines.append(f"let {_lname(n)} : List (Interp Q K) := []")
+                B.vars[n] = (_lname(n), "listInterp")
+            else:
+                v, kv = B.expr(s.value)
+                if kv not in ("listK", "nat"):
+                    _fail(s, f"local of kind {kv}")
+                lines.append(f"let {_lname(n)} := {v}")
+                B.vars[n] = (_lname(n), kv)
+            continue
+        if isinstance(s, ast.For):
+            if inner is not None or s.orelse or not (isinstance(s.target, ast.Name) and isinstance(s.iter, ast.Call)
+                    and isinstance(s.iter.func, ast.Name) and s.iter.func.id == "range" and len(s.iter.args) == 1 and not s.iter.keywords):
+                _fail(s, "unsupported loop")
+            n, kn = B.expr(s.iter.args[0])
+            if kn != "nat":
+                _fail(s, f"range of kind {kn}")
+            iv = _lname(s.target.id)
+            L = IBody("interpolate/loop", constructed=True)
+            L.stored = B.stored
+            L.vars = dict(B.vars)
+            L.vars[s.target.id] = (iv, "nat")
+            acc, inner_lines = None, []
+            for b in s.body:
+                inner_lines.append(_comment(b))
+                if isinstance(b, ast.Assign) and len(b.targets) == 1 and isinstance(b.targets[0], ast.Name):
+                    nm = b.targets[0].id
+                    if nm in L.vars or nm == "self":
+                        _fail(b, "re-assignment in the loop")
+                    v, kv = L.expr(b.value)
+                    if kv not in ("nat", "subgrid", "listK"):
+                        _fail(b, f"local of kind {kv}")
+                    inner_lines.append(f"let {_lname(nm)} := {v}")
+                    L.vars[nm] = (_lname(nm), kv)
+                    continue
+                if (isinstance(b, ast.Expr) and isinstance(b.value, ast.Call) and isinstance(b.value.func, ast.Attribute)
+                        and b.value.func.attr == "append" and isinstance(b.value.func.value, ast.Name) and len(b.value.args) == 1
+                        and not b.value.keywords):
+                    lst = b.value.func.value.id
+                    if L.vars.get(lst, (0, 0))[1] != "listInterp" or acc not in (None, lst):
+                        _fail(b, "append to something else than the list of interpolants")
+                    acc = lst
+                    v, kv = L.expr(b.value.args[0])
+                    if kv != "interp":
+                        _fail(b, f"append of kind {kv}")
+                    inner_lines.append(f"let {_lname(lst)} := {_lname(lst)} ++ [{v}]")
+                    continue
+                _fail(b, "unsupported statement in the loop of interpolate")
+            if acc is None:
+                _fail(s, "loop without effect")
+            lines.append(f"-- for {ast.unparse(s.target)} in {ast.unparse(s.iter)}: ...")
+            lines.append(f"let {_lname(acc)} ← pyForRange {n} (fun {_lname(acc)} {iv} => do")
+            lines += ["    " + ln for ln in inner_lines]
+            lines.append(f"    pure {_lname(acc)}) {_lname(acc)}")
+            continue
+        if isinstance(s, ast.FunctionDef):
+            if inner is not None or s.decorator_list:
+                _fail(s, "unsupported nested function")
+            inner = s
+            continue
+        if isinstance(s, ast.Return):
+            if k != len(body) or inner is None or not (isinstance(s.value, ast.Name) and s.value.id == inner.name):
+                _fail(s, "expected `return <the nested function>` as the last statement")
+            continue
+        _fail(s, "unsupported statement in MolGrid.interpolate")
+    if inner is None or not isinstance(body[-1], ast.Return):
+        raise Untranslatable("MolGrid.interpolate: nested function / return missing")
+    # ---- the nested function: its free names must be bound before it and never re-bound afterwards (checked above:
+    #      nothing but `return` follows the def)
+    a = inner.args
+    if a.vararg or a.kwarg or a.kwonlyargs or a.posonlyargs or len(a.args) != 4 or len(a.defaults) != 3:
+        _fail(inner, "unexpected signature of the nested function")
+    pnames = [x.arg for x in a.args]
+    ptypes = ["Q", "Int", "Bool", "Bool"]
+    dflt = [None] + list(a.defaults)
+    sig = []
+    for nm, ty, d in zip(pnames, ptypes, dflt):
+        if d is None:
+            sig.append(f"({_lname(nm)} : {ty})")
+        elif ty == "Int" and isinstance(d, ast.Constant) and type(d.value) is int:
+            sig.append(f"({_lname(nm)} : Int := {d.value})")
+        elif ty == "Bool" and isinstance(d, ast.Constant) and type(d.value) is bool:
+            sig.append(f"({_lname(nm)} : Bool := {'true' if d.value else 'false'})")
+        else:
+            _fail(d, f"unsupported default of {nm}")
+    free = sorted({n.id for st in inner.body for n in ast.walk(st) if isinstance(n, ast.Name)} - set(pnames))
+    ibody = _strip_doc(inner.body)
+    local = {t.id for st in ibody for n in ast.walk(st) if isinstance(n, (ast.Assign, ast.For, ast.AugAssign))
+             for t in ([n.target] if not isinstance(n, ast.Assign) else n.targets) if isinstance(t, ast.Name)}
+    capt = [n for n in free if n not in local]
+    if len(capt) != 1 or B.vars.get(capt[0], (0, 0))[1] != "listInterp":
+        _fail(inner, f"the nested function must capture exactly the list of interpolants, captures {capt}")
+    cap = capt[0]
+
+    def call_args(c):
+        if c.keywords or len(c.args) != 4 or any(not isinstance(x, ast.Name) or x.id not in pnames for x in c.args):
+            _fail(c, "expected a call with the four parameters")
+        got = [x.id for x in c.args]
+        if [ptypes[pnames.index(x)] for x in got] != ptypes:
+            _fail(c, "arguments of the wrong kind")
+        return " ".join(_lname(x) for x in got)
+
+    il = []
+    if len(ibody) != 3:
+        _fail(inner, "expected three statements in the nested function")
+    s0, s1, s2 = ibody
+    # output = fs[0](points, deriv, ...)
+    if not (isinstance(s0, ast.Assign) and len(s0.targets) == 1 and isinstance(s0.targets[0], ast.Name) and isinstance(s0.value, ast.Call)
+            and isinstance(s0.value.func, ast.Subscript) and isinstance(s0.value.func.value, ast.Name) and s0.value.func.value.id == cap
+            and isinstance(s0.value.func.slice, ast.Constant) and type(s0.value.func.slice.value) is int):
+        _fail(s0, "expected `output = <list>[k](...)`")
+    outv = s0.targets[0].id
+    if outv in pnames or outv == cap:
+        _fail(s0, "re-assignment")
+    il.append(_comment(s0))
+    il.append(f"let {_lname(outv)} ← (← pyGet {_lname(cap)} {s0.value.func.slice.value}) {call_args(s0.value)}")
+    # for f in fs[k:]: output += f(...)
+    if not (isinstance(s1, ast.For) and not s1.orelse and isinstance(s1.target, ast.Name) and isinstance(s1.iter, ast.Subscript)
+            and isinstance(s1.iter.value, ast.Name) and s1.iter.value.id == cap and isinstance(s1.iter.slice, ast.Slice)
+            and s1.iter.slice.upper is None and s1.iter.slice.step is None and isinstance(s1.iter.slice.lower, ast.Constant)
+            and type(s1.iter.slice.lower.value) is int and s1.iter.slice.lower.value >= 0 and len(s1.body) == 1):
+        _fail(s1, "expected `for f in <list>[k:]: output += f(...)`")
+    fv = s1.target.id
+    b = s1.body[0]
+    if fv in pnames + [cap, outv] or not (isinstance(b, ast.AugAssign) and isinstance(b.op, ast.Add) and isinstance(b.target, ast.Name)
+            and b.target.id == outv and isinstance(b.value, ast.Call) and isinstance(b.value.func, ast.Name) and b.value.func.id == fv):
+        _fail(s1, "expected `output += f(...)` in the loop")
+    il.append(f"-- for {fv} in {ast.unparse(s1.iter)}: ...")
+    il.append(f"let {_lname(outv)} ← pyForEach (fun {_lname(outv)} {_lname(fv)} => do")
+    il.append("    " + _comment(b))
+    il.append(f"    let {_lname(outv)} ← npIAdd {_lname(outv)} (← {_lname(fv)} {call_args(b.value)})")
+    il.append(f"    pure {_lname(outv)}) (pySliceFrom {_lname(cap)} {s1.iter.slice.lower.value}) {_lname(outv)}")
+    if not (isinstance(s2, ast.Return) and isinstance(s2.value, ast.Name) and s2.value.id == outv):
+        _fail(s2, "expected `return output`")
+    il.append(_comment(s2))
+    il.append(f"pure {_lname(outv)}")
+    res = [f"/-- The inner function `{inner.name}` of `MolGrid.interpolate`, line {inner.lineno}; its captured variable `{cap}` comes first,",
+           "the defaults of its signature are Lean default arguments. -/",
+           f"def {_lname(inner.name)} {{Q K : Type}} [Add K] ({_lname(cap)} : List (Interp Q K)) " + " ".join(sig) + " :",
+           "    Py (NdArr K) := do"]
+    res += ["  " + ln for ln in il] + [""]
+    lines.append(f"-- def {inner.name}({ast.unparse(inner.args)}): ...;  return {inner.name}")
+    lines.append(f"pure (fun {' '.join(_lname(x) for x in pnames)} => {_lname(inner.name)} {_lname(cap)} {' '.join(_lname(x) for x in pnames)})")
+    res += [f"/-- `MolGrid.interpolate(self, func_vals)`, line {f.lineno}, statement by statement; `atom_interpolate` is `AtomGrid.interpolate`",
+            "(a given component). -/",
+            "def interpolate {P Q K : Type} [Add K] [Mul K] (atom_interpolate : AtGrid P K → List K → Py (Interp Q K))",
+            "    (self : MolGrid P K) (func_vals : List K) : Py (Interp Q K) := do"]
+    res += ["  " + ln for ln in out] + ["    " + ln for ln in lines] + [""]
+    return res
+
+
+def _dec(node, src):
+    """exact decimal of the literal text of a float / int constant -> `⟨mant, scale⟩`"""
+    txt = ast.get_source_segment(src, node)
+    if not (isinstance(node, ast.Constant) and type(node.value) in (float, int)) or txt is None:
+        _fail(node, "expected a numeric literal")
+    d = decimal.Decimal(txt.replace("_", ""))
+    if float(d) != float(node.value) or d < 0:
+        _fail(node, "literal text does not round to the value")
+    sign, digits, exp = d.as_tuple()
+    mant = int("".join(map(str, digits)))
+    if exp > 0:
+        mant, exp = mant * 10 ** exp, 0
+    return f"⟨{mant}, {-exp}⟩"
+
+
+def _translate_default_rgrid(tree):
+    src = (SRC / "utils.py").read_text()
+    utree = ast.parse(src)
+    node = None
+    for s in utree.body:
+        if isinstance(s, ast.Assign) and ast.unparse(s.targets[0]) == "_DEFAULT_POWER_RTRANSFORM_PARAMS":
+            node = s.value
+    if not isinstance(node, ast.Dict):
+        raise Untranslatable("_DEFAULT_POWER_RTRANSFORM_PARAMS is not a dict literal in utils.py")
+    rows, keys = [], []
+    for kx, vx in zip(node.keys, node.values):
+        if not (isinstance(kx, ast.Constant) and type(kx.value) is int and kx.value >= 0 and isinstance(vx, ast.Tuple) and len(vx.elts) == 3
+                and isinstance(vx.elts[2], ast.Constant) and type(vx.elts[2].value) is int and vx.elts[2].value >= 0):
+            _fail(vx, "unexpected table row")
+        if kx.value in keys:
+            _fail(kx, "duplicate key in the dict literal")     # Python keeps the last one: not modelled
+        keys.append(kx.value)
+        rows.append(f"({kx.value}, {_dec(vx.elts[0], src)}, {_dec(vx.elts[1], src)}, {vx.elts[2].value})")
+    out = ["/-- `_DEFAULT_POWER_RTRANSFORM_PARAMS` (utils.py): `(atomic number, rmin, rmax, npt)` in dict order; `rmin`, `rmax` (angstrom) are the",
+           "exact decimals of the literal text, `⟨mantissa, scale⟩` = mantissa / 10^scale. -/",
+           "def defaultRgridParams : List (Nat × Dec × Dec × Nat) :=", "  [" + ",\n   ".join(rows) + "]", ""]
+    # ---- the function
+    fn = [s for s in tree.body if isinstance(s, ast.FunctionDef) and s.name == "_generate_default_rgrid"]
+    if len(fn) != 1 or [a.arg for a in fn[0].args.args] != ["atnum"] or fn[0].args.defaults or fn[0].args.kwonlyargs:
+        raise Untranslatable("_generate_default_rgrid(atnum) not found")
+    body = _strip_doc(fn[0].body)
+    T = "_DEFAULT_POWER_RTRANSFORM_PARAMS"
+    if not (len(body) == 1 and isinstance(body[0], ast.If) and ast.unparse(body[0].test) == f"atnum in {T}"
+            and len(body[0].orelse) == 1 and isinstance(body[0].orelse[0], ast.Raise)):
+        raise Untranslatable("_generate_default_rgrid: expected `if atnum in <table>: ... else: raise ...`")
+    B = Body("_generate_default_rgrid", constructed=False)
+    lines = [f"-- if {ast.unparse(body[0].test)}:", "if pyDictIn defaultRgridParams atnum then do"]
+    kinds = {"atnum": "nat"}
+    CONST = {"scipy.constants.angstrom": "angstrom", "scipy.constants.value('atomic unit of length')": "bohr"}
+
+    def num(e):
+        """K-valued expression"""
+        if isinstance(e, ast.Name) and kinds.get(e.id) == "K":
+            return _lname(e.id)
+        if ast.unparse(e) in CONST:
+            return CONST[ast.unparse(e)]
+        if isinstance(e, ast.BinOp) and type(e.op) in (ast.Mult, ast.Div):
+            return f"({num(e.left)} {'*' if isinstance(e.op, ast.Mult) else '/'} {num(e.right)})"
+        _fail(e, "unsupported arithmetic in _generate_default_rgrid")
+
+    stmts = body[0].body
+    for k, s in enumerate(stmts):
+        lines.append("  " + _comment(s))
+        if isinstance(s, ast.Return):
+            if k != len(stmts) - 1 or not (isinstance(s.value, ast.Name) and kinds.get(s.value.id) == "grid"):
+                _fail(s, "unsupported return")
+            lines.append(f"  pure {_lname(s.value.id)}")
+            break
+        if not (isinstance(s, ast.Assign) and len(s.targets) == 1):
+            _fail(s, "unsupported statement in _generate_default_rgrid")
+        t, v = s.targets[0], s.value
+        if isinstance(t, ast.Tuple):
+            names = [x.id for x in t.elts if isinstance(x, ast.Name)]
+            if len(names) != 3 or len(t.elts) != 3 or ast.unparse(v) != f"{T}[int(atnum)]" or set(names) & set(kinds):
+                _fail(s, "expected `a, b, c = <table>[int(atnum)]`")
+            lines.append("  let row ← pyDictGet defaultRgridParams atnum")
+            for n, pr in zip(names[:2], ("row.1", "row.2.1")):
+                lines.append(f"  let {_lname(n)} : K := Dec.val {pr}")
+                kinds[n] = "K"
+            lines.append(f"  let {_lname(names[2])} : Nat := row.2.2")
+            kinds[names[2]] = "nat"
+            continue
+        if not isinstance(t, ast.Name):
+            _fail(s, "unsupported target")
+        if kinds.get(t.id) == "K":                      # rmin = rmin * angstrom / bohr
+            lines.append(f"  let {_lname(t.id)} : K := {num(v)}")
+            continue
+        if t.id in kinds:
+            _fail(s, "re-assignment")
+        if (isinstance(v, ast.Call) and isinstance(v.func, ast.Name) and v.func.id == "UniformInteger" and len(v.args) == 1 and not v.keywords
+                and isinstance(v.args[0], ast.Name) and kinds.get(v.args[0].id) == "nat"):
+            lines.append(f"  let {_lname(t.id)} ← UniformInteger {_lname(v.args[0].id)}")
+            kinds[t.id] = "oned"
+            continue
+        if (isinstance(v, ast.Call) and isinstance(v.func, ast.Attribute) and v.func.attr == "transform_1d_grid" and len(v.args) == 1 and not v.keywords
+                and isinstance(v.args[0], ast.Name) and kinds.get(v.args[0].id) == "oned" and isinstance(v.func.value, ast.Call)
+                and isinstance(v.func.value.func, ast.Name) and v.func.value.func.id == "PowerRTransform" and len(v.func.value.args) == 2
+                and not v.func.value.keywords):
+            a, b = (num(x) for x in v.func.value.args)
+            lines.append(f"  let {_lname(t.id)} ← PowerRTransform_transform_1d_grid {a} {b} {_lname(v.args[0].id)}")
+            kinds[t.id] = "grid"
+            continue
+        _fail(s, "unsupported statement in _generate_default_rgrid")
+    else:
+        _fail(fn[0], "the table branch does not end in a return")
+    lines.append(f"else {B.raises(body[0].orelse[0])}  -- else: raise")
+    out += ["/-- `_generate_default_rgrid(atnum)`, statement by statement. `angstrom` = `scipy.constants.angstrom`, `bohr` =",
+            "`scipy.constants.value('atomic unit of length')`; `UniformInteger(npt)` and `PowerRTransform(rmin, rmax).transform_1d_grid(g)` are",
+            "given components (C01, C03, C04). -/",
+            "def generate_default_rgrid {K G1 G : Type} [Mul K] [Div K] [NatCast K] (angstrom bohr : K) (UniformInteger : Nat → Py G1)",
+            "    (PowerRTransform_transform_1d_grid : K → K → G1 → Py G) (atnum : Nat) : Py G := do"]
+    out += ["  " + ln for ln in lines] + [""]
+    return out
+
+
 def translate_core(tree):
     _check_grid_properties()
     out = _translate_init(tree)
     out += _translate_accessor(tree, "get_atomic_grid", "getAtomicGrid")
     out += _translate_accessor(tree, "__getitem__", "getItem")
+    _check_mol_properties(tree)
+    out += _translate_interpolate(tree)
+    out += _translate_default_rgrid(tree)
     return out
 
 
@@ -909,13 +1303,18 @@ def translate():
     lines.append(cur.rstrip().rstrip(",") + "]")
     parts += lines
     parts.append("")
+    sv = _classmethod(tree, "save")
+    if [a.arg for a in sv.args.args] != ["self", "filename"] or sv.args.defaults or sv.args.kwonlyargs or sv.decorator_list:
+        _fail(sv, "unexpected signature of MolGrid.save")
+    parts += _strs("save_body", "`MolGrid.save(self, filename)`: its statements as text (the hand model `MolGrid.saveKeys` was written against them).",
+                   [ln for s in _strip_doc(sv.body) for ln in ast.unparse(s).splitlines()])
     parts += translate_core(tree)
     return "\n".join(parts)
 
 
 def render():
     """The full text of Gen/MolGrid.lean for the current source tree (nothing is written)."""
-    text = HEADER.format(name="molgrid", source="src/grid/molgrid.py (MolGrid.__init__, get_atomic_grid, __getitem__, from_preset, from_size, from_pruned, _generate_default_rgrid), src/grid/utils.py (_DEFAULT_POWER_RTRANSFORM_PARAMS keys)")
+    text = HEADER.format(name="molgrid", source="src/grid/molgrid.py (MolGrid.__init__, get_atomic_grid, __getitem__, interpolate, from_preset, from_size, from_pruned, _generate_default_rgrid), src/grid/utils.py (_DEFAULT_POWER_RTRANSFORM_PARAMS)")
     text += ("import GridVerif.Model.MolGrid\n\nset_option linter.unusedVariables false\n\n"
              "namespace GridVerif.Gen.MolGrid\nopen GridVerif.MolGrid\n\n")
     text += translate()
